@@ -77,8 +77,8 @@ claim('C13', 'other', 'contract-based deductive verification of the comparison s
       T_ASSUME, 'DESIGN.md §6 C13')
 claim('C19', 'other', 'contract-based deductive verification on the abstract heap: remove_gate, replace_inputs and rename_gate (closed-form loop invariants, ghost lemmas); bounded stand-in for replace_subcircuit',
       'Proved for an arbitrary well-formed circuit: remove_gate succeeds exactly for an existing unused gate, removes it from gates/users/inputs/outputs, drops blocks naming it and keeps WF; replace_inputs (<=2 labels per list) retypes exactly the listed inputs to the constants, '
-      'removes them from the input list, leaves every other gate, the users index, outputs and blocks untouched, keeps WF, with exact raise conditions; rename_gate maps the whole state to its image under old -> new (gates, operand tuples position-wise, users counts, inputs and outputs position-wise, block lists), keeps WF, '
-      'raises exactly for an absent old / present new label and then leaves the state untouched. replace_subcircuit and the input order / cofactor statement are bounded-only; Block._rename_gate is proved position-wise for lists up to (2,3,2) and used by a count-level summary at its call site.',
+      'removes them from the input list keeping the other inputs in their original order, leaves every other gate, the users index, outputs and blocks untouched, keeps WF, with exact raise conditions; rename_gate maps the whole state to its image under old -> new (gates, operand tuples position-wise, users counts, inputs and outputs position-wise, block lists), keeps WF, '
+      'raises exactly for an absent old / present new label and then leaves the state untouched. replace_subcircuit is bounded-only (the cofactor statement follows from the retyping by rule R2); Block._rename_gate is proved position-wise for lists up to (2,3,2) and used by a count-level summary at its call site.',
       T_ASSUME + 'proof rule R2 for the cofactor claim; representation lemmas of lists (lean/Background.lean).', 'DESIGN.md §6 C19')
 
 for _k in ('C08', 'C16'):
